@@ -24,6 +24,39 @@ def handle (toks : List String) : Option String :=
       let disp := (display v).getD "?"
       let ts := (arms.find? (·.1 = v.name)).map (·.2) |>.getD "?"
       pure s!"some {v.name} code={code} msg={Hex.ofBytes disp.toUTF8.toList} tostr={Hex.ofBytes ts.toUTF8.toList}"
+  | ["enumdesc", kind, name, start, vars] => do
+    let parseVar (t : String) : Option Variant := match t.splitOn ":" with
+      | [vn, d, m] => do
+        let disc ← if d = "-" then some none else d.toNat?.map some
+        let attrs ← if m = "~" then some [] else do
+          let b ← Hex.toBytes m
+          let str ← String.fromUTF8? (ByteArray.mk b.toArray)
+          some [some str]
+        pure ⟨vn, disc, attrs⟩
+      | _ => none
+    let vs ← (vars.splitOn ",").mapM parseVar
+    let e0 : EnumDesc := ⟨name, vs⟩
+    let er : Res EnumDesc := if kind = "spl_hash" then
+        (match start.toNat? with | some d => setFirstDiscriminant 100000 e0 d | none => .panic)
+      else .ok e0
+    match er with
+    | .err (.custom d) => pure s!"compile-error {d}"
+    | .err _ => pure "compile-error"
+    | .panic => pure "panic"
+    | .ok e =>
+      let cs := codes e
+      let hx := fun (t : String) => Hex.ofBytes t.toUTF8.toList
+      let join := fun (l : List String) => ",".intercalate l
+      let tostr := join (e.variants.map (fun v => hx (toStr v)))
+      if kind = "tostr" then
+        pure s!"codes={join (cs.map toString)} pe=- tostr={tostr} display=- lookup=-"
+      else
+        let disp := join (e.variants.map (fun v => hx ((display v).getD "?")))
+        let look := join ((List.range cs.length).map (fun i =>
+          match cs[i]? with
+          | some c => if fromCode e c = some i then "ok" else "bad"
+          | none => "bad"))
+        pure s!"codes={join (cs.map toString)} pe={join (cs.map toString)} tostr={tostr} display={disp} lookup={look}"
   | ["hstart", name] =>
     -- hashed start code of an enum name: value and nonce
     match hashedStart 100000 name 0 with
